@@ -246,7 +246,13 @@ def _verify_reported(ck: Checker, rule: str) -> None:
     after = g.reach([d for lab, d in sup[0].succ if lab != "exc"], include_start=True)
     checks = [n for n in g.nodes.values() if n.id in after for c in calls_at(n) if is_method_call(c, "check") and norm(c.func.value) == "self"]
     ck.floor(rule, len(checks), 1, "post-copy integrity checks in HashFileDB.add")
-    reports = {n.id for n in g.nodes.values() for c in calls_at(n) if isinstance(c.func, ast.Name) and c.func.id == "on_error"}
+    from ..an import value_alts as _va, with_flags as _wf
+
+    def _is_report(n, c) -> bool:
+        # on_error(...) itself, or a local that stands for it (`cb = None if already_failed else on_error`)
+        return isinstance(c.func, ast.Name) and (c.func.id == "on_error" or (not add.has_param(c.func.id) and any(isinstance(a_, ast.Name) and a_.id == "on_error" for a_ in _va(g, n, c.func, depth=3))))
+
+    reports = {n.id for n in g.nodes.values() for c in calls_at(n) if _is_report(n, c)}
     # sets of oids that were *already reported* through on_error: filled by a local wrapper that always forwards
     already = set()
     for child in add.children.values():
@@ -287,7 +293,8 @@ def _verify_reported(ck: Checker, rule: str) -> None:
                 return (t == "on_error is not None" and lab == "F") or (t == "on_error is None" and lab == "T") or (t == "on_error" and lab == "F")
 
             stops = set(n.loops[-1:]) | {g.exit}
-            r = g.reach([h.id], skip_node=lambda x: x.id in reports, skip_edge=skip)
+            lifted = _wf(g, lambda a, lab: skip(a, lab, None), start=n.loops[-1] if n.loops else None)
+            r = g.reach([h.id], skip_node=lambda x: x.id in reports, skip_edge=lambda a, lab, b: skip(a, lab, b) or lifted(a, lab))
             bad = [s_ for s_ in stops if s_ in r]
             ck.require(not bad, rule, add, h,
                        "an object rejected by the post-copy verification is reported through on_error",
